@@ -179,3 +179,56 @@ Print Assumptions C06_pauli_proj_table_ok.
 Theorem C06_pauli_proj_table_spec : forall neg l, In l (pauli_strings_upto 3) -> pauli_proj_spec neg l.
 Proof. exact pauli_proj_table_spec. Qed.
 Print Assumptions C06_pauli_proj_table_spec.
+
+(* ---- IdleMomentsGauge (Xform/IdleGauge.v): G at the start of an idle window merged AFTER the gate that opens it, G^-1 at its end
+   merged BEFORE the gate that closes it.  A sound window (free moments strictly inside, free or mergeable ends) keeps the
+   operator of the circuit up to the central scalar G^-1 . G, for every denotation in a monoid in which single-qubit gates of
+   the wire commute with what the other qubits do; so does a whole run whose windows are sound one after the other; merging
+   the inverse after the closing gate instead is refuted.  On every run the model's windows (`get_structure`) are decided
+   sound by `idle_gauge_ok` and the model's output is compared with the real transformer's. ---- *)
+From VF Require Import Xform.IdleGauge Xform.IdleGaugeProofs.
+
+Theorem C06_idle_window_preserved : forall (G R F M : Type) (gmul : G -> G -> G) (mul : M -> M -> M) (one : M),
+  (forall a b c : M, mul a (mul b c) = mul (mul a b) c) ->
+  forall (emb : G -> M) (rden : R -> M) (fden : F -> M),
+  (forall b a : G, emb (gmul b a) = mul (emb b) (emb a)) ->
+  (forall (g : G) (r : R), mul (emb g) (rden r) = mul (rden r) (emb g)) ->
+  forall (g gi : G) (z : M), mul (emb gi) (emb g) = z -> mul (emb g) (emb gi) = z -> central M mul z ->
+  forall (w : list (moment G R F)) (s e : nat), window_ok w s e = true ->
+    den G R F M mul one emb rden fden (apply_window gmul w s e g gi) = mul z (den G R F M mul one emb rden fden w).
+Proof. exact window_preserved. Qed.
+Print Assumptions C06_idle_window_preserved.
+
+Theorem C06_idle_window_preserved_nonvacuous :
+  window_ok demo_wire 0 3 = true /\ m2mul shearUinv shearU = m2one /\ m2mul shearU shearUinv = m2one /\
+  demo_den (apply_window m2mul demo_wire 0 3 shearU shearUinv) = demo_den demo_wire.
+Proof. exact window_preserved_nonvacuous. Qed.
+Print Assumptions C06_idle_window_preserved_nonvacuous.
+
+Theorem C06_idle_gauge_preserved : forall (G R F M : Type) (gmul : G -> G -> G) (mul : M -> M -> M) (one : M),
+  (forall a b c : M, mul a (mul b c) = mul (mul a b) c) -> (forall a : M, mul one a = a) -> (forall a : M, mul a one = a) ->
+  forall (emb : G -> M) (rden : R -> M) (fden : F -> M),
+  (forall b a : G, emb (gmul b a) = mul (emb b) (emb a)) ->
+  (forall (g : G) (r : R), mul (emb g) (rden r) = mul (rden r) (emb g)) ->
+  forall (min_length : nat) (gb ge : bool) (gs gis : list G), inverse_pairs G M mul emb gs gis ->
+  forall (w : list (moment G R F)) (script : list nat) (w' : list (moment G R F)) (rest : list nat),
+    windows_ok gmul w (wire_windows min_length gb ge w) script gs gis = true ->
+    idle_gauge_wire gmul min_length gb ge gs gis w script = Some (w', rest) ->
+    exists z : M, central M mul z /\ den G R F M mul one emb rden fden w' = mul z (den G R F M mul one emb rden fden w).
+Proof. exact idle_gauge_preserved. Qed.
+Print Assumptions C06_idle_gauge_preserved.
+
+Theorem C06_idle_window_ok_spec : forall (G R F : Type) (w : list (moment G R F)) (s e : nat), window_ok w s e = true ->
+  s <= e /\ e < length w /\
+  (forall i : nat, s < i -> i < e -> exists x : R, List.nth_error w i = Some (MIdle x)) /\
+  (exists m : moment G R F, List.nth_error w s = Some m /\ is_fixed m = false) /\
+  (exists m : moment G R F, List.nth_error w e = Some m /\ is_fixed m = false) /\
+  (s = e -> exists x : R, List.nth_error w s = Some (MIdle x)).
+Proof. exact window_ok_spec. Qed.
+Print Assumptions C06_idle_window_ok_spec.
+
+Theorem C06_idle_merge_after_refuted : exists (w : list (moment m2 unit unit)) (s e : nat) (g gi : m2),
+  window_ok w s e = true /\ m2mul gi g = m2one /\ m2mul g gi = m2one /\
+  demo_den (apply_window_after m2mul w s e g gi) <> demo_den w.
+Proof. exact merge_after_refuted. Qed.
+Print Assumptions C06_idle_merge_after_refuted.
